@@ -136,6 +136,17 @@ def run_impl(d):
             fails.append(lin.fail(["C15"], "specialised != general: %s" % n, site, relerr=gtlib.relerr(a, b)))
     # plus the oracle failures of the specialised run that concern C15 itself
     fails += [f for f in fails_s if "props" in f and "C15" in f["props"]]
+    dU = C.U(d)
+    if dU.get("scn") == "binop" and dU["f"]["kind"] in ("onerank", "linear", "constant") and dU["f"]["R"] in (1, dU["u"]["R"]):
+        # one more operation the factor kinds support: the expected log-factor under the (un-normalised) measure
+        gU = general_of(dU)
+        vals = []
+        for dd in (dU, gU):
+            u = C.impl_measure(dd["u"]); f = C.impl_factor(dd["f"])
+            vals.append(np.asarray(u.integrate("log u(x)", factor=f), dtype=float))
+        if vals[0].shape != vals[1].shape or not gtlib.close(vals[0], vals[1]):
+            fails.append(lin.fail(["C15"], "specialised != general: integrate('log u(x)', factor=f)", site,
+                                  relerr=(gtlib.relerr(vals[0], vals[1]) if vals[0].shape == vals[1].shape else float("inf"))))
     return ob, fails
 
 
